@@ -118,6 +118,9 @@ class QBytesTensor(QTensor):
 
         if t.shape != self.shape:
             raise NotImplementedError("In-place operations that modify the shape of a QBytesTensor are not supported.")
+        if t.numel() == 0:
+            # Nothing to update
+            return self
         if not isinstance(t, QBytesTensor) or t.qtype != self.qtype or t.dtype != self.dtype:
             if isinstance(t, QTensor):
                 t = t.dequantize()
